@@ -11,6 +11,7 @@ pub type RunTape<'a> = &'a mut dyn FnMut(Vec<u32>) -> BTreeMap<&'static str, u64
 pub fn enum_groups(prop: &str, _tier: Tier) -> u64 {
     match prop {
         "C13" => 3 * SWEEP_PAIRS.len() as u64,
+        "C14" => 3 * crate::send::enum_sizes(_tier).len() as u64,
         _ => 0,
     }
 }
@@ -18,6 +19,7 @@ pub fn enum_groups(prop: &str, _tier: Tier) -> u64 {
 pub fn enum_group(prop: &str, tier: Tier, group: u64, run: RunTape) {
     match prop {
         "C13" => c13_sweep(tier, group, run),
+        "C14" => c14_faults(tier, group, run),
         _ => {}
     }
 }
@@ -34,6 +36,52 @@ fn c13_sweep(_tier: Tier, group: u64, run: RunTape) {
                 continue;
             }
             run(vec![link, MODE_SWEEP, pair, 0, 0, pos, b]);
+        }
+    }
+}
+
+/// tape layout (send.rs): placed-mode flag, link, packet, fault kind, position, argument
+fn c14_faults(tier: Tier, group: u64, run: RunTape) {
+    let link = (group % 3) as u32;
+    let pkt = (group / 3) as u32;
+    let dry = run(vec![1, link, pkt, 0, 4095, 0]);
+    let calls = dry.get("tx_calls").copied().unwrap_or(0) as u32;
+    let flushes = dry.get("flush_calls").copied().unwrap_or(0) as u32;
+    match link {
+        // usart: a would-block burst before every byte
+        0 => {
+            for pos in 0..calls {
+                for b in 0..3 {
+                    run(vec![1, link, pkt, 0, pos, b]);
+                }
+            }
+        }
+        // can: a would-block burst before / a displaced-frame report at every frame
+        1 => {
+            for pos in 0..calls {
+                for b in 0..3 {
+                    run(vec![1, link, pkt, 0, pos, b]);
+                }
+                run(vec![1, link, pkt, 1, pos, 0]);
+            }
+        }
+        // serial port: hard error (3 kinds), every short-write size, Interrupted at every
+        // write call; an error at every flush call
+        _ => {
+            for pos in 0..calls {
+                for k in 0..3 {
+                    run(vec![1, link, pkt, 0, pos, k]);
+                }
+                for size in 0..14 {
+                    run(vec![1, link, pkt, 1, pos, size]);
+                }
+                run(vec![1, link, pkt, 2, pos, 0]);
+            }
+            for pos in 0..flushes {
+                for k in 0..3 {
+                    run(vec![1, link, pkt, 3, pos, k]);
+                }
+            }
         }
     }
 }
